@@ -3,8 +3,9 @@ C10 — The function-call protocol enforces every declared parameter contract.
 
 Property theorems only; helper lemmas live in `CtyModel/Lemmas/FnCall.lean` and
 `FnCall2.lean`.  Every statement is about `Fn.call`, `Fn.callUnrefined`,
-`Fn.returnTypeForValuesPub`, `Fn.returnType` — the transliterations of
-`Function.Call`, `Function.ReturnTypeForValues`, `Function.ReturnType`
+`Fn.returnTypeForValuesPub`, `Fn.returnType`, `Fn.proxy`, `Fn.Spec.withNewDescriptions` —
+the transliterations of `Function.Call`, `Function.ReturnTypeForValues`,
+`Function.ReturnType`, `Function.Proxy`, `Function.WithNewDescriptions`
 (cty/function/function.go) that the correspondence harness diffs against /repo
 on every run — for ALL specifications `spec` (any number of positional
 parameters, optional variadic parameter, every flag combination, optional
@@ -483,6 +484,26 @@ theorem call_fails_as_rtfv (spec : Spec) (tf : TypeFn) (impl : ImplFn) (args : L
 /-- `ReturnType` is `ReturnTypeForValues` on unknown values of the given types. -/
 theorem returnType_is_rtfv_of_unknowns (spec : Spec) (tf : TypeFn) (tys : List Ty) :
     returnType spec tf tys = returnTypeForValuesPub spec tf (tys.map Value.unknown) := rfl
+
+/-- `Proxy()(args...)` is `Call(args)`. -/
+theorem proxy_is_call (spec : Spec) (tf : TypeFn) (impl : ImplFn) (args : List Value) :
+    proxy spec tf impl args = call spec tf impl args := rfl
+
+/-- `WithNewDescriptions` returns a function that runs the same protocol (same parameters,
+flags, callbacks, refinement: descriptions are not part of it) — or panics, exactly when the
+number of parameter descriptions is neither the number of positional parameters nor, for a
+variadic function, one more. -/
+theorem redescribed_same_protocol (spec : Spec) (n : Nat) :
+    (∀ s', spec.withNewDescriptions n = .ok s' → s' = spec) ∧
+    ((∃ why, spec.withNewDescriptions n = .panic why) ↔
+      ¬ (n = spec.params.length ∨ (spec.varParam.isSome = true ∧ n = spec.params.length + 1))) ∧
+    (∀ e, spec.withNewDescriptions n ≠ .err e) := by
+  unfold Spec.withNewDescriptions
+  cases spec.varParam with
+  | none =>
+    by_cases h : n = spec.params.length <;> simp [h]
+  | some vp =>
+    by_cases h : n = spec.params.length <;> by_cases h' : n = spec.params.length + 1 <;> simp [h, h']
 
 /-! ### exact results -/
 
